@@ -188,14 +188,18 @@ class AnGen:
         frame_sx = frame['sx'] if frame else '_'
         # ---- function
         params_vtl = ''
+        lag_off = r.randint(0, 3)
+        lag_dflt = r.random() < 0.5
+
+        def lag_params(t):
+            """offset + optional default of the operand's type `t` (None: no default can be typed for all measures)."""
+            dflt = self.const_of(t) if (lag_dflt and t is not None) else None
+            return (', %d' % lag_off + (', %s' % G.vtl_const(dflt) if dflt is not None else ''),
+                    '(%s %d %s)' % (fn, lag_off, enc_value(dflt)))
         if fn in ('lag', 'lead'):
-            off = r.randint(0, 3)
-            t0 = meas[0][1]
-            dflt = None
-            if r.random() < 0.5 and (level == 'calc' or len(meas) == 1 or all(t in ('Integer', 'Number') for _, t in meas)):
-                dflt = self.const_of('Integer' if len(meas) > 1 and level == 'each' else t0)
-            params_vtl = ', %d' % off + (', %s' % G.vtl_const(dflt) if dflt is not None else '')
-            fn_sx = '(%s %d %s)' % (fn, off, enc_value(dflt))
+            types = {t for _, t in meas}
+            t_all = meas[0][1] if len(types) == 1 else ('Integer' if types <= {'Integer', 'Number'} else None)
+            params_vtl, fn_sx = lag_params(t_all)
         elif fn == 'rank':
             fn_sx = 'rank'
         elif fn == 'ratio_to_report':
@@ -212,6 +216,8 @@ class AnGen:
             m, t = r.choice(meas)
             if fn in NUM_ONLY:
                 m, t = r.choice([x for x in meas if x[1] in ('Integer', 'Number')])
+            if fn in ('lag', 'lead'):
+                params_vtl, fn_sx = lag_params(t)        # the default has the operand's type
             arg_vtl, arg_sx, arg_desc = m, '(col %s)' % nsx(m), 'component'
             if t in ('Integer', 'Number') and r.random() < 0.2 and fn != 'rank':
                 c = r.choice([1, 2])
